@@ -54,3 +54,11 @@ Definition site_ok (s : string * string * cls) : bool :=
   | Syntax | SyntaxDyn | Impossible | Control => true
   | _ => existsb (triple_eqb s) internal_guards
   end.
+
+(* constant folding (nodes.*.as_const) runs operators, filters, tests, subscripts and attribute
+   lookups on constants while the template is loaded; whatever they raise has to become Impossible *)
+Definition fold_handler_ok (h : string * string * bool) : bool := String.eqb (snd (fst h)) "Exception" && snd h.
+Definition fold_entry_points : list string := [
+  "BinExpr.as_const"; "UnaryExpr.as_const"; "Dict.as_const"; "args_as_const"; "_FilterTestCommon.as_const";
+  "Getitem.as_const"; "Getattr.as_const"; "Compare.as_const"
+].
